@@ -36,6 +36,7 @@ type RelayScript struct {
 	From   string   `json:"from,omitempty"`
 	Start  string   `json:"start,omitempty"`
 	Scopes []string `json:"scopes,omitempty"` // "type:resource:action"
+	Nested bool     `json:"nested,omitempty"` // the view is built as a view of a view
 	Listed []string `json:"listed,omitempty"` // backend's repository listing
 }
 
@@ -51,6 +52,15 @@ func parseRS(s string) ociauth.ResourceScope {
 	return ociauth.ResourceScope{ResourceType: p[0], Resource: p[1], Action: p[2]}
 }
 
+// subOf builds the view for prefix: directly, or (nested) as a view of a view, which must be the
+// same thing: Sub(Sub(r, "a"), "b") shows what lies under a/b.
+func subOf(r ociregistry.Interface, prefix string, nested bool) ociregistry.Interface {
+	if first, rest, ok := strings.Cut(prefix, "/"); ok && nested {
+		return ocifilter.Sub(ocifilter.Sub(r, first), rest)
+	}
+	return ocifilter.Sub(r, prefix)
+}
+
 func runRelay(s RelayScript, v *vt.V) {
 	r := rec.New(nil)
 	r.Canned.Data = []byte("data")
@@ -58,7 +68,7 @@ func runRelay(s RelayScript, v *vt.V) {
 	if s.Method != "Repositories" {
 		r.Canned.Strings = []string{"t1"}
 	}
-	sub := ocifilter.Sub(r.Registry(), s.Prefix)
+	sub := subOf(r.Registry(), s.Prefix, s.Nested)
 	var rss []ociauth.ResourceScope
 	for _, sc := range s.Scopes {
 		rss = append(rss, parseRS(sc))
@@ -240,6 +250,7 @@ func genRelay(t *rapid.T) RelayScript {
 			// repositories of the view whose own names look like the prefix
 			"repository:" + s.Prefix + ":pull", "repository:" + s.Prefix + "/x:pull", "repository:" + s.Prefix + "/" + s.Prefix + ":push", "repository:" + s.Prefix + "ey:pull", "other:" + s.Prefix + "/x:pull"}).Draw(t, "scope"))
 	}
+	s.Nested = rapid.IntRange(0, 3).Draw(t, "nested") == 0
 	if s.Method == "Repositories" {
 		p := s.Prefix
 		pool := []string{p, p + "/a", p + "/a/b", p + "/z", p + "ey/x", p + "-tools", p + ".d/x", "other", "a", p + "0", "zz/" + p + "/a"}
@@ -253,7 +264,7 @@ func genRelay(t *rapid.T) RelayScript {
 var propRelay = &vt.Prop[RelayScript]{
 	ID:   "C13",
 	Name: "SubRelay",
-	Rule: "Sub(recorder, prefix) with prefixes of 1-3 elements (incl. routing words); each of the 18 methods; caller repository names from the valid grammar and from hostile generators (empty, '.', '..', '../other', 'x/../../other', leading/trailing/double slashes, upper case, NUL, UTF-8, names equal to or starting with the prefix); 0-3 context scopes (repository pull/push/unknown action, registry:catalog:*, other types, empty repository, opaque, repositories whose own name equals or starts with the prefix, the unlimited scope); oracle = exactly one underlying call; a well-formed name n arrives as prefix/n; whatever arrives for a malformed name is empty or literally below prefix/ and does not resolve (dot segments) outside it; the context scope at the underlying registry equals the caller's with repository resources prefixed and nothing else changed; Repositories shows exactly the stripped names under prefix/; non-trivial = hostile name, start point, or name sharing the prefix text; distinct = (prefix, method, names, start)",
+	Rule: "Sub(recorder, prefix) with prefixes of 1-3 elements (incl. routing words), a quarter of them built as a view of a view; each of the 18 methods; caller repository names from the valid grammar and from hostile generators (empty, '.', '..', '../other', 'x/../../other', leading/trailing/double slashes, upper case, NUL, UTF-8, names equal to or starting with the prefix); 0-3 context scopes (repository pull/push/unknown action, registry:catalog:*, other types, empty repository, opaque, repositories whose own name equals or starts with the prefix, the unlimited scope); oracle = exactly one underlying call; a well-formed name n arrives as prefix/n; whatever arrives for a malformed name is empty or literally below prefix/ and does not resolve (dot segments) outside it; the context scope at the underlying registry equals the caller's with repository resources prefixed and nothing else changed; Repositories shows exactly the stripped names under prefix/; non-trivial = hostile name, start point, or name sharing the prefix text; distinct = (prefix, method, names, start)",
 	Gen:  genRelay,
 	Run:  runRelay,
 }
@@ -261,6 +272,7 @@ var propRelay = &vt.Prop[RelayScript]{
 // ---- (b)+(frame): differential histories ----
 
 type DiffScript struct {
+	Nested bool        `json:"nested,omitempty"`
 	Prefix string      `json:"prefix"`
 	Hist   hist.Script `json:"hist"`
 }
@@ -321,7 +333,7 @@ func runDiff(s DiffScript, v *vt.V) {
 		dgs = append(dgs, u.ManDigest(i))
 	}
 	before := snapshotOutside(ctx, memA, outsideNames, dgs)
-	view := ocifilter.Sub(memA, p)
+	view := subOf(memA, p, s.Nested)
 	envA, envB := ops.NewEnv(u, view), ops.NewEnv(u, memB)
 	defer envA.CloseAll()
 	defer envB.CloseAll()
@@ -448,6 +460,7 @@ func genDiff(t *rapid.T) DiffScript {
 	cfg := hist.Config{MaxOps: 30, ValidRepos: 3, InvalidRepos: true, Uploads: true, Mismatch: true, BadManifests: true, Retype: true,
 		Deletes: true, Lists: true, UnknownResumeID: true, MaxSmall: 30,
 		RepoPool: []string{"x", "x/y", "fooey", "ey/x", "a", "other"}}
+	s.Nested = rapid.IntRange(0, 3).Draw(t, "nested") == 0
 	s.Hist = hist.Gen(cfg)(t)
 	// replace the malformed names by ones that try to leave the prefix
 	n := len(s.Hist.U.Repos)
@@ -459,7 +472,7 @@ func genDiff(t *rapid.T) DiffScript {
 var propDiff = &vt.Prop[DiffScript]{
 	ID:   "C13",
 	Name: "SubVsRestrictedRegistry",
-	Rule: "the same generated history (<= 30 ops, all Interface and BlobWriter methods, both tag modes, listings with start points) is applied to Sub(ocimem, prefix) and to a second ocimem that plays the restricted registry; the universe holds 3 valid names plus names that try to leave the prefix ('../other', 'x/../../other', '..', '../<prefix>ey/x') and malformed ones; the underlying registry also holds siblings outside the prefix (other, <prefix>ey/x, <prefix>, <prefix>-tools, zz) with a secret blob, a tagged manifest and copies of the universe's blobs; oracle = every outcome equal on both sides (codes, descriptors, bytes, listings from any start point), no read ever returns the outside content, repository listings from a set of start points (each Seq iterated twice) equal the restricted registry's, and everything outside the prefix is unchanged afterwards (also after explicit climbing probes that read, delete and overwrite); distinct = (prefix, names, op-kind sequence)",
+	Rule: "the same generated history (<= 30 ops, all Interface and BlobWriter methods, both tag modes, listings with start points) is applied to Sub(ocimem, prefix) (a quarter of the time built as a view of a view) and to a second ocimem that plays the restricted registry; the universe holds 3 valid names plus names that try to leave the prefix ('../other', 'x/../../other', '..', '../<prefix>ey/x') and malformed ones; the underlying registry also holds siblings outside the prefix (other, <prefix>ey/x, <prefix>, <prefix>-tools, zz) with a secret blob, a tagged manifest and copies of the universe's blobs; oracle = every outcome equal on both sides (codes, descriptors, bytes, listings from any start point), no read ever returns the outside content, repository listings from a set of start points (each Seq iterated twice) equal the restricted registry's, and everything outside the prefix is unchanged afterwards (also after explicit climbing probes that read, delete and overwrite); distinct = (prefix, names, op-kind sequence)",
 	Gen:  genDiff,
 	Run:  runDiff,
 }
